@@ -6,11 +6,13 @@ from .. import layout_exec, layout_gen, otproject
 PROPERTY = "C20"
 TRACE_MODULE = "LayoutTrace"
 TRACE_CFG = "LayoutTrace.cfg"
-RULE = ("random single- and multi-script fonts (Latin, Arabic, Cyrillic) having kerning AND attaching anchors (and cursive "
-        "anchors for Arabic) x languagesystem statements {none, DFLT only, DFLT + first script, DFLT + all scripts}; default "
-        "feature writers; the compiled ScriptList / FeatureList / lookups are dumped and TLC checks, per script with kerning, "
-        "that every generated mark / mkmk / curs feature acting on glyphs of that script is reachable from its default "
-        "language system; non-trivial = GPOS has at least two scripts; distinct by source digest")
+RULE = ("random single- and multi-script fonts (Latin, Arabic, Cyrillic, Devanagari with its two OpenType tags) having "
+        "kerning AND attaching anchors (and cursive anchors for Arabic) x languagesystem statements {none, DFLT only, DFLT + "
+        "first script, DFLT + all scripts; non-default languages, different lists for the two tags of one script}; default "
+        "feature writers; entry points: compileTTF / compileOTF, compileVariableTTF / CFF2 with variable or merged layout, "
+        "interpolatable masters; the compiled ScriptList / FeatureList / lookups are dumped and TLC checks, per script with "
+        "kerning and per language system, that every generated mark / mkmk / curs / abvm / blwm feature acting on glyphs of "
+        "that script is reachable; non-trivial = GPOS has at least two scripts; distinct by source digest")
 ASSUMPTIONS = ["'acts on glyphs of the script' = some lookup of the feature lists a base / ligature / mark2 / cursive glyph whose "
                "script extensions contain the script"]
 
@@ -26,13 +28,14 @@ def cases(tier, seed):
     out = []
     for k in range(n):
         c = layout_gen.full_font(rng)
-        c.update({"cid": f"c20-{seed}-{k}", "lib": rng.choice(["ufoLib2", "defcon"]), "writers": "default"})
+        c.update({"cid": f"c20-{seed}-{k}", "lib": rng.choice(["ufoLib2", "defcon"]), "writers": "default",
+                  "via": rng.choice(["static", "static", "vf", "vf-merge", "interp"]), "flavor": rng.choice(["tt", "tt", "cff"])})
         out.append(c)
     return out
 
 
 def execute(case):
-    f2, fea, data = layout_exec.compile_layout(case)
+    f2, fea, data = layout_exec.compile_layout(case, flavor=case.get("flavor", "tt"), via=case.get("via", "static"))
     order = f2.getGlyphOrder()
     props = otproject.glyph_properties(f2)
     F = {"gpos": otproject.gpos(f2), "gdef": otproject.gdef(f2)}
